@@ -167,3 +167,82 @@ Example accepted_example :
               conv := Some (Some "https://sp.example.org/sp.xml");
               recip := Some "https://sp.example.org/sp.xml" |} = true.
 Proof. vm_compute. reflexivity. Qed.
+
+(* ---------------------------------------------------------------------------------------------
+   call sequences on long-lived provider objects *)
+
+Lemma return_addrs_endpoint specs b : return_addrs specs b = endpoint specs b.
+Proof. unfold return_addrs, service_urls. destruct (endpoint specs b); reflexivity. Qed.
+
+(* what parse_authn_request_response hands to AuthnResponse is made of own endpoints only *)
+Lemma return_addrs_own specs b d : In d (return_addrs specs b) -> own_endpoint specs b d.
+Proof. rewrite return_addrs_endpoint. apply endpoint_sound. Qed.
+
+Lemma service_urls_own specs b l d : service_urls specs b = Some l -> In d l -> own_endpoint specs b d.
+Proof.
+  unfold service_urls. intros H Hd. apply endpoint_sound.
+  destruct (endpoint specs b) as [|u r]; [discriminate|]. inversion H; subst l. exact Hd.
+Qed.
+
+Lemma request_acs_url_own specs b u : request_acs_url specs b = Some u -> own_endpoint specs b u.
+Proof.
+  unfold request_acs_url. intros H. apply return_addrs_own.
+  destruct (return_addrs specs b) as [|v r]; [discriminate|]. inversion H; subst. left; reflexivity.
+Qed.
+
+Lemma spec_ev_b_iff o r : spec_ev_b o r = true <-> spec_ev o r.
+Proof.
+  destruct o as [x|s b|s b|s b]; destruct r as [i|u|l|a]; cbn [spec_ev_b spec_ev];
+    try apply spec_b_iff; try (split; [discriminate|contradiction]); split; auto.
+Qed.
+
+Lemma all2_Forall2 {A B} (f : A -> B -> bool) (P : A -> B -> Prop) :
+  (forall a b, f a b = true <-> P a b) -> forall l1 l2, all2 f l1 l2 = true <-> Forall2 P l1 l2.
+Proof.
+  intros Hf. induction l1 as [|a r1 IH]; destruct l2 as [|b r2]; cbn [all2].
+  - split; [constructor|reflexivity].
+  - split; [discriminate|intros H; inversion H].
+  - split; [discriminate|intros H; inversion H].
+  - rewrite andb_true_iff, Hf, IH. split.
+    + intros [H1 H2]. constructor; assumption.
+    + intros H. inversion H; subst. split; assumption.
+Qed.
+
+Lemma spec_trace_b_iff ops rs : spec_trace_b ops rs = true <-> spec_trace ops rs.
+Proof. apply all2_Forall2. exact spec_ev_b_iff. Qed.
+
+Lemma step_holds o : spec_ev o (step o).
+Proof. destruct o; cbn [step spec_ev]; [apply addressing_holds|exact I|exact I|exact I]. Qed.
+
+(* for EVERY sequence of calls on any number of provider objects, every parse call of the modelled
+   behaviour satisfies the property with respect to its own object's configuration *)
+Lemma trace_holds ops : spec_trace ops (run_ops ops).
+Proof.
+  unfold spec_trace, run_ops. induction ops as [|o r IH]; cbn [map]; constructor; [apply step_holds|exact IH].
+Qed.
+
+(* the verdict on a Response does not depend on what was called before or after it *)
+Lemma history_independent pre post x :
+  nth_error (run_ops (pre ++ OParse x :: post)) (length pre) = Some (RId (identity x)).
+Proof.
+  unfold run_ops. rewrite map_app. cbn [map].
+  rewrite nth_error_app2; rewrite map_length; [|apply le_n].
+  rewrite PeanoNat.Nat.sub_diag. reflexivity.
+Qed.
+
+(* non-vacuity for sequences: two provider objects with different consumer URLs; after the first one
+   has handled a login, a Response addressed to the FIRST one's URL is refused by the second, and a
+   Response addressed to the second one's own URL is accepted by it *)
+Definition POSTB := "urn:oasis:names:tc:SAML:2.0:bindings:HTTP-POST".
+Definition resp_for (me_ url : string) (own : list epspec) : input :=
+  {| me := me_; specs := own; binding := POSTB; rs := [[Some me_]]; dest := Some url;
+     conv := Some (Some me_); recip := Some url |}.
+Example two_providers_example :
+  let one := [EP "https://one.example.org/acs/post" POSTB] in
+  let two := [EP "https://two.example.org/acs/post" POSTB] in
+  run_ops [ OParse (resp_for "urn:sp:one" "https://one.example.org/acs/post" one);
+            OUrls one POSTB;
+            OParse (resp_for "urn:sp:two" "https://one.example.org/acs/post" two);
+            OParse (resp_for "urn:sp:two" "https://two.example.org/acs/post" two) ]
+  = [RId true; RUrls (Some ["https://one.example.org/acs/post"]); RId false; RId true].
+Proof. vm_compute. reflexivity. Qed.
